@@ -126,9 +126,11 @@ struct OptimOps {
         G x = a;
         opts.strat = std::make_shared<smooth::DisneyStrategy>();
         int ncb = 0;
+        Out* outp = &out;
+        // the whole iterate sequence is part of the result, not just the final point
         const auto r = smooth::minimize<Type::Numerical>(
           [&b, opp](const auto& v) -> T { h::cb_tick(*opp); return smooth::rminus(v, b); }, smooth::wrt(x),
-          [&ncb](const auto&...) { ++ncb; }, opts);
+          [&ncb, outp](const auto& xi) { ++ncb; put_elem(*outp, xi); }, opts);
         put_elem(out, x);
         put_result(out, r);
         out.i64(ncb);
